@@ -450,6 +450,45 @@ def check_cmp_units(rep):
         raise AnalysisBroken('L-CMP-UNITS: only %d bsf/tzcnt sites typed (39 confirmed by hand)' % nsites)
 
 
+def check_type0_split(rep, mod):
+    """a stored block carries at most 65535 bytes; write_type0_header cuts a longer remainder into a full block that is NOT final and decides about BFINAL only in the other branch"""
+    R = rep.rule('T-TYPE0-SPLIT', 'write_type0_header: on the branch that fixes the stored-block length to a constant K (a full block, BFINAL not considered), the branch condition on block_in_size = block_end - '
+                 'block_next implies block_in_size >= K + 1: a block is written as non-final only if input remains after it (a remainder of exactly K bytes must take the branch that can set BFINAL)', floor=1,
+                 unit='constant-length branches')
+    f = mod.funcs.get('write_type0_header')
+    if f is None:
+        raise AnalysisBroken('write_type0_header not found')
+    n = 0
+    for phi in [i for i in f.all_insns() if i.op == 'phi' and (i.ty or '') == 'i32']:
+        for val, blk in phi.extra['incoming']:
+            if not re.match(r'^\d+$', val) or int(val) < 256:
+                continue
+            K = int(val)
+            # the edge into blk: a conditional branch on icmp(block_in_size, const)
+            preds = [p_ for p_ in f.order if blk in (f.blocks[p_].insns[-1].extra.get('targets') or [])]
+            for p_ in preds:
+                br = f.blocks[p_].insns[-1]
+                c = f.defs.get(br.extra.get('cond', '')) if br.extra.get('cond') else None
+                if c is None or c.op != 'icmp' or not re.match(r'^\d+$', c.ops[1]):
+                    continue
+                d = f.defs.get(c.ops[0])
+                if d is None or d.op != 'sub':
+                    continue
+                tt, tf = br.extra['targets']
+                C, pred = int(c.ops[1]), c.extra['pred']
+                lo = None
+                if blk == tt:
+                    lo = {'ugt': C + 1, 'uge': C, 'sgt': C + 1, 'sge': C, 'eq': C}.get(pred)
+                else:
+                    lo = {'ult': C, 'ule': C + 1, 'slt': C, 'sle': C + 1}.get(pred)
+                n += 1
+                R.instance()
+                R.check(lo is not None and lo >= K + 1, mod.where(f, c), 'write_type0_header writes a non-final stored block of %d bytes whenever block_in_size %s: a remainder of exactly %d bytes is written without BFINAL although '
+                        'nothing follows it' % (K, ('>= %d' % lo) if lo is not None else 'satisfies "%s %d"' % (pred, C), K), key='T-TYPE0-SPLIT|%d' % K, sample='full block of %d bytes only when block_in_size >= %d' % (K, lo or 0))
+    if n == 0:
+        raise AnalysisBroken('T-TYPE0-SPLIT: no branch of write_type0_header fixes the block length to a constant')
+
+
 def check_construn(rep, mod):
     """the one-shot fast path for inputs that start with a long run of 0x00 / 0xFF emits a canned dynamic header (which already contains the
     first literal), (L-1)/258 two-bit codes for "match 258 at distance 1" as zero bits, and a fix-up for the (L-1)%258 remaining bytes."""
@@ -641,6 +680,7 @@ def main(tier):
     Ku, _d = mirror.c_values('default', ['huff_codes.h', 'bitbuf2.h', 'igzip_lib.h'], [(n, n) for n in ('MAX_BITBUF_BIT_WRITE', 'DIST_LEN', 'LIT_LEN')], 'c01_useable')
     rep.attempt(c18.check_useable_schedule, rep, llir.library('default'), Ku)
     rep.attempt(check_construn, rep, llir.library('default'))
+    rep.attempt(check_type0_split, rep, llir.library('default'))
     rep.attempt(check_df_lane_limits, rep)
     import stridecover
     rep.attempt(stridecover.check, rep, 'DEFLATE', {'igzip_deflate', 'igzip_histogram', 'igzip_set_long', 'igzip_encode_df', 'igzip_hash'}, 100, lookahead=True)
